@@ -73,6 +73,22 @@ theorem empty_map_is_a_map (R : Rules) (d : Dir) (t : String) :
   · intro k dflt hl; simp [route, doRoute, hl, applyBeh, applyKey, getKey]
   · intro nn k hl; simp [route, doRoute, hl, applyBeh, applyKey, getKey]
 
+/-- **a key bound to nil is bound, not absent**: `Get` returns the stored nil (not the
+function's default), the `.(string)` assertion panics, the recovered `Route` yields ""
+— so a function with a default instance does NOT fall back to it and the request is
+refused; same for any other non-string value. -/
+theorem null_value_is_present (R : Rules) (d : Dir) (r t a m k dflt : String) (l : KVs) (p : Param) (v : Val) (cb : Bool)
+    (hr : splitClientRoute r = (t, a, m)) (hl : R.lookup t = some (.keyd k dflt)) (hp : p.kvs? = some l)
+    (hk : getKey l k = some v) (hv : ∀ s, v ≠ .str s) :
+    route R d t p = "" ∧ request R d r p cb = refused cb := by
+  have h1 : route R d t p = "" := by
+    rw [route_viaFunc R d t p _ (viaFunc_of_kvs p l hp)]
+    cases v with
+    | str s => exact absurd rfl (hv s)
+    | null => simp [doRoute, hl, applyBeh, applyKey, hk]
+    | other => simp [doRoute, hl, applyBeh, applyKey, hk]
+  exact ⟨h1, by simp [request, hr, routePID, h1]⟩
+
 /-- …so such a rule names the instance under the OUTER parameter's key and the request goes there. -/
 theorem nested_routed_by_outer_key (R : Rules) (d : Dir) (hd : d.Ok) (r t a m k tB : String) (inner l : KVs)
     (p : Param) (n : String) (cb : Bool) (hr : splitClientRoute r = (t, a, m))
@@ -334,6 +350,9 @@ example : request ⟨[("chat", .keyd "chatid" "c2")], true⟩ d0 "chat.remote.sa
     = ⟨[⟨("h2:2", "c2"), "remote" ++ "." ++ "say", true⟩], [], true⟩ := by decide
 example : request ⟨[("chat", .nilor "c2" "chatid")], true⟩ d0 "chat.remote.say" (.map []) true = refused true := by decide
 example := (empty_map_is_a_map ⟨[("chat", .keyd "chatid" "c2")], true⟩ d0 "chat").1 "chatid" "c2" rfl
+-- the routing key bound to nil: no fall-back to the default instance `c2`
+example := null_value_is_present ⟨[("chat", .keyd "chatid" "c2")], true⟩ d0 "chat.remote.say" "chat" "remote" "say" "chatid" "c2"
+  [("chatid", .null)] (.map [("chatid", .null)]) .null true (by decide) rfl rfl (by decide) (by intro s h; cases h)
 -- an explicit name, unique in the view
 example := routed_to_the_instance ⟨[], true⟩ d1 d1_ok "x.sys.kick" "x" "sys" "kick" (.str "g1") "g1" true ("h1:1", "g1")
   (by decide) (.explicit "g1") (by decide) (known_of_lookup_some d1 d1_ok "g1" _ (by decide)) (d1_unique "g1")
